@@ -13,10 +13,10 @@ ID = "C20"
 LEVEL = "model_checking"
 SERIAL = True
 RULE = ("explicit-state BFS to fixpoint: transitions are real DrawSet.add/remove calls (present and absent "
-        "elements) over a universe of 3 (quick) / 4 (thorough) edge tuples; in every state len, iteration, "
+        "elements) over universes of 3 and 4 (quick) / 3, 4 and 5 (thorough) edge tuples; in every state len, iteration, "
         "membership and every RNG resolution of draw() are compared with a plain set; a state is "
         "non-trivial when it is a distinct ordered arrangement with >= 2 members")
-BOUNDS = {"quick": "universe of 3 elements, full reachable state space (fixpoint)",
+BOUNDS = {"quick": "universes of 3 and of 4 elements, full reachable state space (fixpoint)",
           "thorough": "universe of 4 and of 5 elements, full reachable state space (fixpoint)"}
 ASSUMPTIONS = ["elements are hashable tuples, as in rewire(); draw() on an empty set and the exception type "
                "of remove(absent) are unspecified by the property and not checked",
@@ -24,8 +24,9 @@ ASSUMPTIONS = ["elements are hashable tuples, as in rewire(); draw() on an empty
 
 
 def instances(tier, seed):
+    yield {"universe": [(0, 1), (0, 2), (1, 2)]}
     if tier == "quick":
-        yield {"universe": [(0, 1), (0, 2), (1, 2)]}
+        yield {"universe": [(0, 1), (0, 2), (1, 2), (2, 3)]}
     else:
         yield {"universe": [(0, 1), (0, 2), (1, 2), (2, 3)]}
         yield {"universe": [(1, 2), (0, 5), (3, 4), (0, 1), (2, 5)]}
